@@ -139,8 +139,8 @@ fn rand_scalar(r: &mut Rng) -> char {
 }
 fn rand_string(r: &mut Rng, max: usize) -> String { let n = r.usize(max + 1); (0..n).map(|_| rand_scalar(r)).collect() }
 fn printable_ascii(r: &mut Rng, max: usize) -> String { let n = r.usize(max + 1); (0..n).map(|_| (0x20 + r.below(0x5F) as u8) as char).collect() }
-/// is `s` inside the documented defect F-C16-a ? (ASCII text with a character PDFDocEncoding does not keep)
-fn in_f_c16_a(s: &str) -> bool { s.is_ascii() && s.bytes().any(|b| b < 0x20 || b == 0x7F) }
+/// printable ASCII only (the texts `text_string` keeps as a PDFDocEncoding literal)
+fn printable(s: &str) -> bool { s.bytes().all(|b| (0x20..0x7F).contains(&b)) }
 
 fn repertoire(t: &[Option<u16>; 256]) -> Vec<char> {
     let mut v: Vec<char> = t.iter().filter_map(|c| c.and_then(|u| char::from_u32(u as u32))).collect();
@@ -296,8 +296,7 @@ fn scalar_block(c: &mut Ctx) {
     {
         let mut corr_scalars: Vec<u32> = vec![];
         if c.quick() {
-            corr_scalars.extend(0x20..0x7F);
-            corr_scalars.extend(0x80..0x200);
+            corr_scalars.extend(0x00..0x200);
             for b in [0x7FFu32, 0x800, 0xFFF, 0x1000, 0x20AC, 0xD7FF, 0xE000, 0xFDD0, 0xFEFF, 0xFFFD, 0xFFFE, 0xFFFF, 0x10000, 0x10001,
                       0x103FF, 0x10400, 0x1F600, 0xFFFFF, 0x100000, 0x10FC00, 0x10FFFE, 0x10FFFF] { corr_scalars.push(b); }
             let Some(mut r) = c.case("scalar.sample", 0) else { return };
@@ -308,15 +307,14 @@ fn scalar_block(c: &mut Ctx) {
         for v in 0..=0x10FFFFu32 {
             let Some(ch) = char::from_u32(v) else { continue };
             let s = ch.to_string();
-            if in_f_c16_a(&s) { continue; }            // the 33 characters of F-C16-a: witness stream below
             let o = lopdf::text_string(&s);
             let d = lopdf::decode_text_string(&o);
             checked += 1;
             match &o { Object::String(_, StringFormat::Literal) => lit += 1, _ => hexs += 1 }
             // form: ASCII stays a literal string of the same bytes; everything else is FE FF + UTF-16BE
             let form_ok = match &o {
-                Object::String(b, StringFormat::Literal) => v < 0x80 && b == s.as_bytes(),
-                Object::String(b, StringFormat::Hexadecimal) => v >= 0x80 && b.len() >= 2 && b[0] == 0xFE && b[1] == 0xFF && ref_utf16be(&b[2..]).as_deref() == Some(&s),
+                Object::String(b, StringFormat::Literal) => (0x20..0x7F).contains(&v) && b == s.as_bytes(),
+                Object::String(b, StringFormat::Hexadecimal) => !(0x20..0x7F).contains(&v) && b.len() >= 2 && b[0] == 0xFE && b[1] == 0xFF && ref_utf16be(&b[2..]).as_deref() == Some(&s),
                 _ => false,
             };
             if !form_ok { c.oracle_fail("ts:form", "text_string output has the wrong form", json!({"scalar": format!("{:x}", v), "obj": show_obj(&o)})); }
@@ -332,7 +330,6 @@ fn scalar_block(c: &mut Ctx) {
         for v in corr_scalars {
             let Some(ch) = char::from_u32(v) else { continue };
             let s = ch.to_string();
-            if in_f_c16_a(&s) { continue; }
             let o = lopdf::text_string(&s); let d = lopdf::decode_text_string(&o);
             if v >= 0x7F { c.nontrivial(&format!("scalar {:x}", v)); }
             c.corr(format!("c16.tsrt {:x}", v), format!("{} ; {}", show_obj(&o), match &d { Ok(x) => format!("ok {}", ustr(x)), Err(_) => "err".into() }));
@@ -348,18 +345,23 @@ fn rest(c: &mut Ctx) {
         let Some(mut r) = c.case("ts", i) else { continue };
         let s = match r.below(6) {
             0 => printable_ascii(&mut r, 30),
+            5 => { let n = r.usize(16); (0..n).map(|_| r.below(0x80) as u8 as char).collect() }      // ASCII incl. C0 controls and DEL
             1 => { let mut s = rand_string(&mut r, 12); s.push('\u{FEFF}'); s.push_str(&rand_string(&mut r, 4)); s }
             2 => { let mut s = String::from("\u{FEFF}"); s.push_str(&rand_string(&mut r, 8)); s }
             _ => rand_string(&mut r, 24),
         };
-        if in_f_c16_a(&s) { c.count("ts.skipped_known_defect_territory"); continue; }
         let req = format!("c16.tsrt {}", ustr(&s));
         if !s.is_empty() && !s.bytes().all(|b| (0x20..0x7F).contains(&b)) { c.nontrivial(&req); }
         match guard(|| { let o = lopdf::text_string(&s); let d = lopdf::decode_text_string(&o); (o, d) }) {
             Ok((o, d)) => {
-                if s.is_ascii() { c.count("ts.ascii"); } else { c.count("ts.utf16"); }
+                if printable(&s) { c.count("ts.literal"); } else { c.count("ts.utf16"); }
+                if s.is_ascii() && !printable(&s) { c.count("ts.ascii_with_controls"); }
+                let form_ok = match &o { Object::String(b, StringFormat::Literal) => printable(&s) && b == s.as_bytes(),
+                                         Object::String(b, StringFormat::Hexadecimal) => !printable(&s) && b.len() >= 2 && b[0] == 0xFE && b[1] == 0xFF && ref_utf16be(&b[2..]).as_deref() == Some(s.as_str()),
+                                         _ => false };
+                if !form_ok { c.oracle_fail("ts:form", "text_string output has the wrong form", json!({"text": ustr(&s), "obj": show_obj(&o)})); }
                 if s.chars().any(|ch| ch as u32 >= 0x10000) { c.count("ts.with_astral"); }
-                if !s.is_ascii() && s.chars().any(|ch| (ch as u32) < 0x20) { c.count("ts.c0_in_utf16_text"); }
+                if s.chars().any(|ch| (ch as u32) < 0x20 || ch as u32 == 0x7F) { c.count("ts.with_c0_or_del"); }
                 c.corr(req, format!("{} ; {}", show_obj(&o), match &d { Ok(x) => format!("ok {}", ustr(x)), Err(_) => "err".into() }));
                 if d.as_deref().ok() != Some(s.as_str()) {
                     c.oracle_fail("ts-rt:other", "decode_text_string(text_string(s)) != s", json!({"text": ustr(&s), "obj": show_obj(&o)}));
@@ -375,13 +377,12 @@ fn rest(c: &mut Ctx) {
                 if u8b.len() < 3 || u8b[..3] != [0xEF, 0xBB, 0xBF] || &u8b[3..] != s.as_bytes() {
                     c.oracle_fail("u8:form", "encode_utf8 is not EF BB BF + UTF-8 of the text", json!({"text": ustr(&s)}));
                 }
-                // "UTF-8 with a mark decodes too": content must come back (the retained mark itself is F-C16-b, witness below)
+                // "UTF-8 with a mark decodes too": exactly the text comes back
                 let o8 = Object::String(u8b, StringFormat::Literal);
                 let d8 = dts(&o8);
                 c.corr(format!("c16.dts {}", show_obj(&o8)), show_res(&d8));
                 match &d8 {
                     Ok(Ok(t)) if t == &s => c.count("u8.exact"),
-                    Ok(Ok(t)) if t.strip_prefix('\u{FEFF}') == Some(s.as_str()) => c.count("u8.content_ok_mark_retained"),
                     _ => c.oracle_fail("u8:decode", "UTF-8 text string with a mark does not decode to its text", json!({"text": ustr(&s)})),
                 }
             }
@@ -432,7 +433,7 @@ fn rest(c: &mut Ctx) {
             }
             (Object::String(b, _), Ok(got)) if b.starts_with(&[0xEF, 0xBB, 0xBF]) => {
                 let exp = std::str::from_utf8(&b[3..]).ok();
-                let g = got.as_ref().ok().map(|x| x.strip_prefix('\u{FEFF}').unwrap_or(x.as_str()));
+                let g = got.as_ref().ok().map(|x| x.as_str());
                 if exp != g { c.oracle_fail("dts:utf8", "UTF-8 text string decoded differently from the reference", json!({"request": req})); }
             }
             (Object::String(b, _), Ok(got)) => {
@@ -450,24 +451,22 @@ fn rest(c: &mut Ctx) {
 
     // ---------------------------------------------------------------- witnesses of known findings
     if let Some(_r) = c.case("witness", 0) {
-        // F-C16-a
+        // F-C16-a (fixed by 66885be): reproduced = the defect is back
         let s = "a\nb\tc";
         let o = lopdf::text_string(s);
         let d = lopdf::decode_text_string(&o).ok();
         c.corr(format!("c16.tsrt {}", ustr(s)), format!("{} ; ok {}", show_obj(&o), ustr(d.as_deref().unwrap_or("?"))));
-        c.witness("F-C16-a", d.as_deref() != Some(s), &format!("text_string({:?}) decodes to {:?}", s, d));
         let mut lost = 0;
         for v in (0u32..0x20).chain([0x7F]) {
             let s = char::from_u32(v).unwrap().to_string();
-            let o = lopdf::text_string(&s);
-            let d = lopdf::decode_text_string(&o).ok();
-            c.corr(format!("c16.tsrt {:x}", v), format!("{} ; ok {}", show_obj(&o), ustr(d.as_deref().unwrap_or("?"))));
-            if d.as_deref() != Some(s.as_str()) { lost += 1; }
+            if lopdf::decode_text_string(&lopdf::text_string(&s)).ok().as_deref() != Some(s.as_str()) { lost += 1; }
         }
         c.count_n("witness.ascii_chars_not_round_tripping", lost);
-        // F-C16-b
+        c.witness("F-C16-a", d.as_deref() != Some(s) || lost > 0, &format!("text_string({:?}) decodes to {:?}; {} of the 33 C0/DEL characters do not round-trip", s, d, lost));
+        // F-C16-b (fixed by 62deee4)
         let o = Object::String(lopdf::encode_utf8("abc"), StringFormat::Literal);
         let d = lopdf::decode_text_string(&o).ok();
+        c.corr(format!("c16.dts {}", show_obj(&o)), format!("ok {}", ustr(d.as_deref().unwrap_or("?"))));
         c.witness("F-C16-b", d.as_deref() != Some("abc"), &format!("decode_text_string(encode_utf8(\"abc\")) = {:?}", d));
     }
 
